@@ -1215,7 +1215,18 @@ def c20(run, selftest=True):
     import re
     import subprocess
     q = run.tier == "quick"
-    run.build()           # also compiles the whole generated receiver corpus (C01/C09/C16 option space) against the working tree
+    # the harness itself declares ~400 receivers (the corpus of C01 / C09, the shape and body families of C16 / C18): when the
+    # code the derives emit for one of THEM stops compiling, that is this property's violation, not a tool error
+    try:
+        run.build()
+    except ToolError as e:
+        msg = str(e)
+        if "derive macro" in msg or "proc-macro derive" in msg or "/harness/gen/" in msg or "src/gen/" in msg or "gen/corpus_gen.rs" in msg or "gen/body_gen.rs" in msg or "gen/shapes_gen.rs" in msg:
+            first = next((l for l in msg.splitlines() if l.startswith("error")), "error")
+            run.violation("c20:harness-receivers:" + first[:200], "a receiver of the harness's own corpus no longer compiles with the emitted implementation: " + first[:300],
+                          {"module": "c20", "case": {"source": "harness/gen/*.rs (generated corpus)", "derive": "", "shape": ""}, "why": msg.splitlines()[-25:]})
+            return run.finish("exploration", "harness build")
+        raise
     outs = []
     for fo in ("field", "cont", "enum", "vfield"):
         res = run.tlc("MC_DeriveOptions", DO_CFG % DO_FOCUS[fo], "c20_" + fo, workers=8, timeout=3000)
